@@ -1048,7 +1048,8 @@ impl World {
             } else {
                 arena.finish_marking()
             };
-            let Some(marked) = marked else { return Ok(()) };
+            #[allow(unused_mut)]
+            let Some(mut marked) = marked else { return Ok(()) };
             ran = true;
             marked.finalize(|fc: &Finalization<'_>, root| -> VResult {
                 let m = this.locate(root)?;
